@@ -288,6 +288,38 @@ def run(ctx, env):
                     why = "UnknownVersion(%s)" % canon(pe)
                 ctx.ob("R12.2", path, "unknown-carries-unparsed-bytes:version=%d" % v, okb, why, site=body.line(sw))
     ctx.floor("R12.1", "dispatcher", "gated sites (4 parsers + UnknownVersion)", n_sites, 5)
+    # R12.6: what the dispatcher can return as an error
+    ctx.rule("R12.6", "a packet that is filtered out produces nothing: the only errors the dispatcher returns are UnallowedVersion (gate false edge), the failure to read the version word itself (Incomplete built from the header parser's error), UnknownVersion and the error of a version parser (both behind the gate, R12.1) - no other check in front of the gate (a length or sanity test on the still unfiltered packet) reports an error for a version outside the allowed set")
+    n6 = 0
+    for path, (body0, sites0) in sorted(disp.items()):
+        body = role_body(prog, path)
+        errv = peel(an.expand(an.interp._through("err", an.localx(body, 0))))
+
+        def flat(x, out, depth=0):
+            x = peel(x)
+            if x[0] == "phi" and depth < 6:
+                for m in x[1]:
+                    flat(m, out, depth + 1)
+            else:
+                out.append(x)
+        mem = []
+        flat(errv, mem)
+        vp = set(VERSION_PARSERS.values())
+        for m in mem:
+            n6 += 1
+            ok6, what = False, canon(m)[:140]
+            if m[0] == "agg" and str(m[1]).endswith("NetflowParseError"):
+                if m[2] in ("UnallowedVersion", "UnknownVersion"):
+                    ok6 = True
+                elif m[2] == "Incomplete":
+                    ok6 = bool(find(m, lambda n: n[0] == "err" and peel(n[1])[0] == "call" and not (peel(n[1])[2] is not None and peel(n[1])[2].npath in vp)))
+            elif m[0] == "err" and peel(m[1])[0] == "call" and peel(m[1])[2] is not None and peel(m[1])[2].npath in vp:
+                ok6 = True
+            elif m[0] == "cycle":
+                ok6 = True
+            ctx.ob("R12.6", path, "error:%s" % (m[2] if m[0] == "agg" else ("version-parser" if m[0] == "err" else m[0])), ok6,
+                   ("the dispatcher returns an error of its own making before / besides the gate: %s" % what) if not ok6 else "accounted for: %s" % what[:100], site=site(body.span))
+    ctx.floor("R12.6", "dispatcher", "error values the dispatcher can return", n6, 6)
 
     # R12.3 single origin
     n_ua = 0
